@@ -11,7 +11,7 @@ import json
 import os
 import sys
 
-from lib import gen, vf
+from lib import gen, pylayer, vf
 
 HERE = os.path.dirname(os.path.abspath(__file__))
 
@@ -110,6 +110,9 @@ def main(argv):
     for e in res.get("errors", []):
         c.errors.append("API driver: " + e)
     c.assumptions += ["request-ids, message-ids and the privacy salt are random in the implementation: they are read from the wire and fed to the model"]
+    # ---- the Python layer alone, on scripted socket results, against Model.PyLayer (lib/pylayer.py)
+    n_pl, d_pl = pylayer.run(c, codec_exe, c.rng, 1500 if thorough else 300, "C03")
+    c.coverage["python_layer_cases"] = n_pl
     return c.finish(
         rule="%d datagrams emitted by %d concurrent sessions (v1, v2c x2, v3 noAuth, SHA, MD5+DES, SHA+AES, MD5+AES; password/master/localized "
              "keys; sync/async) under interleaved get / get_many (0..30 OIDs) / getnext / getbulk (max_repetitions 1..2^31-1 and default) / "
